@@ -7,7 +7,7 @@ use mccore::alpha::{generic, rinv, two};
 use mccore::{ensure, Bad, Meta, Run, Tier};
 use num_traits::{One, Zero};
 use rand::RngCore;
-use refmodel::{addm, be, be32, from_be, invm, mulm, n, negm, q, r, sqrt_mod, subm, F2, Fld, N};
+use refmodel::{addm, be, be32, from_be, invm, mulm, n, negm, q, sqrt_mod, subm, F2, Fld, N};
 use serde_json::{json, Value};
 use sm9_core::{Fq, Fq2, Fr};
 
